@@ -182,6 +182,44 @@ def model_search_filterpos(ctx, binp):
     return name, inp, outs
 
 
+def gen_text_edge_case(rng):
+    """Round 5 (seed C13-17): top-level <text> (fonts of the test fonts dir) with a thick stroke whose layout box (font metrics, no
+    stroke) is moved just off one of the four canvas edges by the shift while part of the stroke stays visible; also decorated and
+    rotated variants, and the same with the text in the middle (control).  Native canvas, integer base."""
+    W, H = rng.choice([(120, 80), (90, 90), (160, 60), (70, 140)])
+    fs = rng.choice([24, 30, 36])
+    sw = rng.choice([20, 26, 30, 36])
+    fam = rng.choice(['Noto Sans', 'Noto Serif', 'Noto Mono'])
+    word = rng.choice(['HH', 'Text', 'MWM', 'll'])
+    edge = rng.choice(['left', 'right', 'top', 'bottom', 'middle'])
+    inside = 2 + rng.below(6)          # how far the layout box is inside before the shift
+    off = 2 + rng.below(max(1, sw // 2 - 4))   # how far it is outside after it (less than half the stroke)
+    asc, desc = 1.07 * fs, 0.30 * fs   # Noto ascent / descent, approximately (the margins absorb the difference)
+    dx = dy = 0
+    anchor = 'start'
+    if edge == 'left':
+        x, y, anchor = inside, H // 2, 'end'
+        dx, dy = -(inside + off), rng.below(23) - 11
+    elif edge == 'right':
+        x, y = W - inside, H // 2
+        dx, dy = inside + off, rng.below(23) - 11
+    elif edge == 'top':
+        x, y = W // 4, inside - desc
+        dx, dy = rng.below(23) - 11, -(inside + off)
+    elif edge == 'bottom':
+        x, y = W // 4, H - inside + asc
+        dx, dy = rng.below(23) - 11, inside + off
+    else:
+        x, y = W // 3, H // 2
+        dx, dy = rng.below(41) - 20, rng.below(41) - 20
+    if dx == dy:
+        dy += 1
+    deco = rng.choice(['', '', ' text-decoration="underline"', ' stroke-linejoin="round"'])
+    doc = ('<svg %s width="%d" height="%d"><text x="%s" y="%s" text-anchor="%s" font-family="%s" font-size="%d" fill="#2a6" stroke="#137" '
+           'stroke-width="%d"%s>%s</text></svg>' % (rc.NS, W, H, round(x, 2), round(y, 2), anchor, fam, fs, sw, deco, word))
+    return (doc, "native:%s:0:0" % rng.choice([1, 1, 2]), dx, dy)
+
+
 def run(ctx):
     rng = ctx.rng
     quick = ctx.tier == 'quick'
@@ -311,6 +349,14 @@ def run(ctx):
     st = run_shift(ctx, binp, eitems, "e2e-C13 edges")
     stats['edges'] = st
     ctx.log("e2e-C13 edges: %s" % st)
+    # stroked top-level text whose layout box leaves the canvas while its stroke stays visible (seeded change C13-17)
+    titems = [gen_text_edge_case(rng) for _ in range(120 if quick else 1200)]
+    st = run_shift(ctx, binp, titems, "e2e-C13 text edges")
+    stats['text_edges'] = st
+    ctx.log("e2e-C13 text edges: %s" % st)
+    if st['cases'] < len(titems) // 2:
+        ctx.violation("e2e-C13 text edges: only %d of %d text documents rendered (fonts missing?)" % (st['cases'], len(titems)),
+                      dict(op='c13-shift', doc=titems[0][0], view=titems[0][1], shift=[titems[0][2], titems[0][3]]), found_input=False)
     ctx.add_sample(dict(op='c13-shift', doc='@' + files[len(files) // 2], view='1:0.37:0.61', shift=[7, -13]))
     ctx.add_sample(dict(op='c13-shift', doc=items[1][0], view=items[1][1], shift=[items[1][2], items[1][3]]))
     ctx.cov['e2e'] = stats
